@@ -3,6 +3,12 @@
 (*   component kind x child site of that kind x reference-graph shape x path spelling x    *)
 (*   position of the root's reference x load entry point.                                  *)
 (* The state is the universe; there are no transitions.                                    *)
+(* Round 6 added: objects carrying two child sites at once (SitePairs), pointers to inline  *)
+(* objects below a component of any collection (Deep, InlContainers: the deepcomp and       *)
+(* deepback families), near-miss keys (NearMisses: templated paths, status keys, names),    *)
+(* definitions outside the typed structure local to a whole-file element (DefRef: the       *)
+(* wholedef family, extdef, rootdef), cycles through every schema site, and histories of    *)
+(* one Loader (HistoryEntries).                                                             *)
 EXTENDS Layout, Json, CSV
 
 CONSTANT Tier
@@ -48,9 +54,11 @@ Sites(k) ==
    \* loader does not resolve it, and above all must not READ the document it names while external references are disallowed)
    CASE k = "schemas" -> {[site |-> s, kind |-> "schemas"] : s \in {"properties", "items", "allOf", "anyOf", "oneOf", "not", "additionalProperties",
                                                                        "discriminator.mapping"}}
+     \* a parameter / header is described by `schema` or by `content` (one media type); its own `examples` are legal next to either
      [] k = "parameters" -> {[site |-> "schema", kind |-> "schemas"], [site |-> "content.schema", kind |-> "schemas"],
-                             [site |-> "examples", kind |-> "examples"]}
-     [] k = "headers" -> {[site |-> "schema", kind |-> "schemas"], [site |-> "examples", kind |-> "examples"]}
+                             [site |-> "examples", kind |-> "examples"], [site |-> "content.examples", kind |-> "examples"]}
+     [] k = "headers" -> {[site |-> "schema", kind |-> "schemas"], [site |-> "content.schema", kind |-> "schemas"],
+                          [site |-> "examples", kind |-> "examples"], [site |-> "content.examples", kind |-> "examples"]}
      [] k = "requestBodies" -> {[site |-> "content.schema", kind |-> "schemas"], [site |-> "content.examples", kind |-> "examples"],
                                 [site |-> "content.encoding.headers", kind |-> "headers"]}
      [] k = "responses" -> {[site |-> "headers", kind |-> "headers"], [site |-> "content.schema", kind |-> "schemas"],
@@ -63,6 +71,37 @@ Sites(k) ==
      [] OTHER -> {}
 
 OtherKind(k) == IF k = "schemas" THEN "parameters" ELSE "schemas"
+
+(* two child sites one object may carry at once: everything but `schema` next to `content` (parameters, headers) *)
+Compatible(k, s1, s2) == ~(k \in {"parameters", "headers"} /\ "schema" \in {s1.site, s2.site} /\ {s1.site, s2.site} \cap {"content.schema", "content.examples"} # {})
+SitePairs(k) == {p \in SUBSET Sites(k) : Cardinality(p) = 2 /\ \A a, b \in p : Compatible(k, a, b)}
+First(p) == CHOOSE x \in p : TRUE
+Second(p) == CHOOSE x \in p : x # First(p)
+
+(* inline objects below a component: which components (collection ck, site) hold an inline object of kind k *)
+InlContainers(k) ==
+   CASE k = "schemas" -> {[ck |-> "schemas", site |-> "properties"], [ck |-> "parameters", site |-> "schema"], [ck |-> "headers", site |-> "schema"],
+                          [ck |-> "requestBodies", site |-> "content.schema"], [ck |-> "responses", site |-> "content.schema"]}
+     [] k = "headers" -> {[ck |-> "responses", site |-> "headers"]}
+     [] k = "examples" -> {[ck |-> "parameters", site |-> "examples"], [ck |-> "headers", site |-> "examples"],
+                           [ck |-> "requestBodies", site |-> "content.examples"], [ck |-> "responses", site |-> "content.examples"]}
+     [] k = "links" -> {[ck |-> "responses", site |-> "links"]}
+     [] OTHER -> {}
+Canon(k) == IF \E c \in InlContainers(k) : c.ck = k THEN CHOOSE c \in InlContainers(k) : c.ck = k ELSE CHOOSE c \in InlContainers(k) : TRUE
+(* the last token of the pointer to the inline object (Layout!CompSiteKey): a component of that name in the root is its namesake *)
+LastSeg(site) == CASE site = "properties" -> "p" [] site \in {"schema", "content.schema"} -> "schema" [] site \in {"examples", "content.examples"} -> "e"
+                   [] site = "headers" -> "H" [] site = "links" -> "L"
+Deep(f, g, c, name, st) == [path |-> IF f = g THEN <<>> ELSE Spell(f, g, st), frag |-> <<"#compinl", c.ck, name, c.site>>]
+ConcInl(id, ch, site, inlId) == Conc(id, ch) @@ [inl |-> <<[site |-> site, id |-> inlId]>>]
+
+(* definitions kept outside the typed structure ("#/x-defs/T"), local to the file that holds them *)
+DefRef(k, n) == [path |-> <<>>, frag |-> <<"#def", k, n>>]
+WD == <<"r", "sub", "deep", "w.json">>
+TY(f) == Dir(f) \o <<"ty.json">>
+
+(* keys that are NOT keys of the map they are looked up in, but near one: a path template with another variable name, *)
+(* a trailing slash, another case                                                                                      *)
+NearMisses == {"u/{uid}", "u/{id}/", "U/{id}"}
 
 (* the universes of one kind: shape name |-> universe *)
 U(slots, useRef, k) == [slots |-> slots, use |-> [kind |-> k, ref |-> useRef]]
@@ -110,6 +149,30 @@ Shapes(k, st) ==
                Slot(Root, k, "B", RefC(R(Root, Root, k, "C", st))), Slot(Root, k, "C", Conc("rootC", <<>>)),
                Slot(A1, k, "C", Conc("extC", <<>>))>>, R(Root, Root, k, "A", st), k)],
     [shape |-> "sameroot", u |-> U(<<Slot(Root, k, "X", Conc("X", <<>>))>>, R(Root, Root, k, "X", st), k)]}
+   \cup
+   \* a component name that differs from an existing one by case only: dangling
+   {[shape |-> "nearmiss_name", u |-> U(<<Slot(A1, k, "X", Conc("X", <<>>))>>, R(Root, A1, k, "x", st), k)]}
+   \cup
+   \* definitions outside the typed structure of a complete document, external and local
+   {[shape |-> "extdef", u |-> U(<<Slot(A1, k, DefName("T"), Conc("T", <<>>))>>, [path |-> Spell(Root, A1, st), frag |-> <<"#def", k, "T">>], k)],
+    [shape |-> "rootdef", u |-> U(<<Slot(Root, k, DefName("T"), Conc("T", <<>>))>>, DefRef(k, "T"), k)],
+    [shape |-> "extdef_dangling", u |-> U(<<Slot(A1, k, DefName("T"), Conc("T", <<>>))>>, [path |-> Spell(Root, A1, st), frag |-> <<"#def", k, "Missing">>], k)]}
+   \cup
+   \* a pointer to an inline object BELOW a component (of whatever collection holds an object of kind k)
+   UNION {
+     {[shape |-> "deepcomp", site |-> c.ck \o "." \o c.site,
+       u |-> U(<<Slot(A1, c.ck, "Pet", ConcInl("Pet", <<>>, c.site, "In"))>>, Deep(Root, A1, c, "Pet", st), k)],
+      [shape |-> "deepcomp_local", site |-> c.ck \o "." \o c.site,
+       u |-> U(<<Slot(Root, c.ck, "Pet", ConcInl("Pet", <<>>, c.site, "In"))>>, Deep(Root, Root, c, "Pet", st), k)],
+      [shape |-> "deepcomp_dangling", site |-> c.ck \o "." \o c.site,
+       u |-> U(<<Slot(A1, c.ck, "Pet", ConcInl("Pet", <<>>, c.site, "In"))>>, Deep(Root, A1, c, "Missing", st), k)]}
+     : c \in InlContainers(k)}
+   \cup
+   \* ... in two collections of one file that use the same component name: two distinct targets
+   {[shape |-> "deepcomp_twocoll", site |-> c1.ck \o "+" \o c2.ck,
+     u |-> U(<<Slot(A1, c1.ck, "Pet", ConcInl("Pet1", <<>>, c1.site, "In1")), Slot(A1, c2.ck, "Pet", ConcInl("Pet2", <<>>, c2.site, "In2")),
+               Slot(Root, k, "V", RefC(Deep(Root, A1, c1, "Pet", st)))>>, Deep(Root, A1, c2, "Pet", st), k)]
+    : <<c1, c2>> \in {x \in InlContainers(k) \X InlContainers(k) : x[1] # x[2] /\ x[1].site = x[2].site}}
    \cup (IF st \in {"schemeless", "https"}       \* another host, but the very path of the root document
          THEN {[shape |-> "otherhost_samepath",
                 u |-> U(<<Slot(Root, k, "X", Conc("X", <<>>))>>,
@@ -163,8 +226,62 @@ Shapes(k, st) ==
                R(Root, B1, k, "X", st), k)],
       [shape |-> "rootchild", site |-> s.site,      \* a root component with a child site pointing out
        u |-> U(<<Slot(Root, k, "X", Conc("X", <<Ch(s.site, s.kind, R(Root, B1, s.kind, "Y", st))>>)),
-                 Slot(B1, s.kind, "Y", Conc("Y", <<>>))>>, R(Root, Root, k, "X", st), k)]}
+                 Slot(B1, s.kind, "Y", Conc("Y", <<>>))>>, R(Root, Root, k, "X", st), k)],
+      \* a whole-file element (in another directory than the root) whose child points at a definition of its OWN file ...
+      [shape |-> "wholedef", site |-> s.site,
+       u |-> U(<<Slot(W1, k, "", Conc("W", <<Ch(s.site, s.kind, DefRef(s.kind, "T"))>>)), Slot(W1, s.kind, DefName("T"), Conc("T", <<>>))>>,
+               RW(Root, W1, st), k)],
+      \* ... the definition being a relative reference in turn (whole-file / fragment form): relative to the element's file; a file
+      \* of the same name beside the ROOT document is a decoy nobody refers to
+      [shape |-> "wholedef_ref", site |-> s.site,
+       u |-> U(<<Slot(W1, k, "", Conc("W", <<Ch(s.site, s.kind, DefRef(s.kind, "T"))>>)), Slot(W1, s.kind, DefName("T"), RefC(RW(W1, TY(W1), st))),
+                 Slot(TY(W1), s.kind, "", Conc("TY", <<>>)), Slot(TY(Root), s.kind, "", Conc("Decoy", <<>>))>>, RW(Root, W1, st), k)],
+      [shape |-> "wholedef_reffrag", site |-> s.site,
+       u |-> U(<<Slot(W1, k, "", Conc("W", <<Ch(s.site, s.kind, DefRef(s.kind, "T"))>>)), Slot(W1, s.kind, DefName("T"), RefC(R(W1, B1, s.kind, "Y", st))),
+                 Slot(B1, s.kind, "Y", Conc("Y", <<>>)), Slot(<<"r", "b.json">>, s.kind, "Y", Conc("Decoy", <<>>))>>, RW(Root, W1, st), k)],
+      \* ... the element pulled in by an EXTERNAL document (root -> sub/b.json#X -> deep/w.json): three directories
+      [shape |-> "wholedef_via", site |-> s.site,
+       u |-> U(<<Slot(B1, k, "X", RefC(RW(B1, WD, st))), Slot(WD, k, "", Conc("W", <<Ch(s.site, s.kind, DefRef(s.kind, "T"))>>)),
+                 Slot(WD, s.kind, DefName("T"), RefC(RW(WD, TY(WD), st))), Slot(TY(WD), s.kind, "", Conc("TY", <<>>)),
+                 Slot(TY(B1), s.kind, "", Conc("Decoy1", <<>>)), Slot(TY(Root), s.kind, "", Conc("Decoy2", <<>>))>>, R(Root, B1, k, "X", st), k)]}
+     \cup
+     \* an external object referring back BELOW a component of the root document
+     UNION {
+       {[shape |-> "deepback", site |-> s.site \o ">" \o c.ck, canon |-> (c = Canon(s.kind)),
+         u |-> U(<<Slot(A1, k, "X", Conc("X", <<Ch(s.site, s.kind, Deep(A1, Root, c, "Cat", st))>>)),
+                   Slot(Root, c.ck, "Cat", ConcInl("Cat", <<>>, c.site, "CatIn"))>>, R(Root, A1, k, "X", st), k)],
+        \* ... while the root owns a component named like the last token of that pointer
+        [shape |-> "deepback_named", site |-> s.site \o ">" \o c.ck, canon |-> (c = Canon(s.kind)),
+         u |-> U(<<Slot(A1, k, "X", Conc("X", <<Ch(s.site, s.kind, Deep(A1, Root, c, "Cat", st))>>)),
+                   Slot(Root, c.ck, "Cat", ConcInl("Cat", <<>>, c.site, "CatIn")),
+                   Slot(Root, s.kind, LastSeg(c.site), Conc("Namesake", <<>>))>>, R(Root, A1, k, "X", st), k)]}
+       : c \in InlContainers(s.kind)}
      : s \in Sites(k)}
+   \cup
+   \* two back references below two different root components, with the same last pointer token
+   {[shape |-> "deepback2", site |-> First(p).site \o "+" \o Second(p).site,
+     u |-> U(<<Slot(A1, k, "X", Conc("X", <<Ch(First(p).site, First(p).kind, Deep(A1, Root, Canon(First(p).kind), "Cat", st)),
+                                              Ch(Second(p).site, Second(p).kind, Deep(A1, Root, Canon(First(p).kind), "Dog", st))>>)),
+               Slot(Root, Canon(First(p).kind).ck, "Cat", ConcInl("Cat", <<>>, Canon(First(p).kind).site, "CatIn")),
+               Slot(Root, Canon(First(p).kind).ck, "Dog", ConcInl("Dog", <<>>, Canon(First(p).kind).site, "DogIn"))>>, R(Root, A1, k, "X", st), k)]
+    : p \in {q \in SitePairs(k) : First(q).kind = Second(q).kind /\ InlContainers(First(q).kind) # {}}}
+   \cup
+   \* an object carrying TWO child sites at once (every compatible pair of its kind): the walk over one site must not end the walk
+   \* over the object (e.g. a parameter described by `content` that also has `examples`)
+   UNION {
+     {[shape |-> "childpair", site |-> First(p).site \o "+" \o Second(p).site,
+       u |-> U(<<Slot(A1, k, "X", Conc("X", <<Ch(First(p).site, First(p).kind, R(A1, B1, First(p).kind, "Y", st)),
+                                                Ch(Second(p).site, Second(p).kind, R(A1, B1, Second(p).kind, "Z", st))>>)),
+                 Slot(B1, First(p).kind, "Y", Conc("Y", <<>>)), Slot(B1, Second(p).kind, "Z", Conc("Z", <<>>))>>, R(Root, A1, k, "X", st), k)],
+      [shape |-> "childpair_root", site |-> First(p).site \o "+" \o Second(p).site,     \* ... of a component of the root document
+       u |-> U(<<Slot(Root, k, "X", Conc("X", <<Ch(First(p).site, First(p).kind, R(Root, B1, First(p).kind, "Y", st)),
+                                                  Ch(Second(p).site, Second(p).kind, R(Root, B1, Second(p).kind, "Z", st))>>)),
+                 Slot(B1, First(p).kind, "Y", Conc("Y", <<>>)), Slot(B1, Second(p).kind, "Z", Conc("Z", <<>>))>>, R(Root, Root, k, "X", st), k)],
+      [shape |-> "childpair_local", site |-> First(p).site \o "+" \o Second(p).site,    \* ... with same-document child references
+       u |-> U(<<Slot(B1, k, "X", Conc("X", <<Ch(First(p).site, First(p).kind, R(B1, B1, First(p).kind, "Y", st)),
+                                                Ch(Second(p).site, Second(p).kind, R(B1, B1, Second(p).kind, "Z", st))>>)),
+                 Slot(B1, First(p).kind, "Y", Conc("Y", <<>>)), Slot(B1, Second(p).kind, "Z", Conc("Z", <<>>))>>, R(Root, B1, k, "X", st), k)]}
+     : p \in SitePairs(k)}
    \cup
    (IF k = "schemas" THEN
      \* a local reference of the root document that does NOT point into components: the body schema of one of its own paths
@@ -174,6 +291,19 @@ Shapes(k, st) ==
       [shape |-> "pathfragment_ext",      \* the same in an external document, referred to from the root
        u |-> U(<<Slot(A1, "pathItems", "x", Conc("PX", <<>>) @@ [inl |-> <<[site |-> "post.requestBody.schema", id |-> "PS"]>>])>>,
                [path |-> Spell(Root, A1, st), frag |-> <<"#pathinl", "x", "post.requestBody.schema">>], k)]}
+     \cup
+     \* ... through a TEMPLATED path: spelled exactly, and by keys that are only near it (no such path: dangling)
+     {[shape |-> "pathfragment_templated",
+       u |-> U(<<Slot(A1, "pathItems", "u/{id}", Conc("PX", <<>>) @@ [inl |-> <<[site |-> "post.requestBody.schema", id |-> "PS"]>>])>>,
+               [path |-> Spell(Root, A1, st), frag |-> <<"#pathinl", "u/{id}", "post.requestBody.schema">>], k)]}
+     \cup
+     {[shape |-> "pathfragment_nearmiss", site |-> nm,
+       u |-> U(<<Slot(A1, "pathItems", "u/{id}", Conc("PX", <<>>) @@ [inl |-> <<[site |-> "post.requestBody.schema", id |-> "PS"]>>])>>,
+               [path |-> Spell(Root, A1, st), frag |-> <<"#pathinl", nm, "post.requestBody.schema">>], k)] : nm \in NearMisses}
+     \cup
+     {[shape |-> "pathfragment_nearmiss_local", site |-> nm,
+       u |-> U(<<Slot(Root, "pathItems", "u/{id}", Conc("PX", <<>>) @@ [inl |-> <<[site |-> "post.requestBody.schema", id |-> "PS"]>>])>>,
+               [path |-> <<>>, frag |-> <<"#pathinl", nm, "post.requestBody.schema">>], k)] : nm \in NearMisses}
      \cup
      {[shape |-> "deepfragment",      \* a pointer into a non-component place of a whole-file target that is also a root component
        u |-> U(<<Slot(W1, k, "", Conc("W", <<>>) @@ [inl |-> <<[site |-> "properties", id |-> "P"]>>]),
@@ -206,7 +336,14 @@ Shapes(k, st) ==
         u |-> U(<<Slot(Root, k, "A", RefC(R(Root, Root, k, "B", st))), Slot(Root, k, "B", RefC(R(Root, A1, k, "X", st))),
                   Slot(A1, k, "B", Conc("extB", <<>>)),
                   Slot(A1, k, "X", Conc("X", <<Ch(s.site, k, R(A1, A1, k, "B", st))>>))>>, R(Root, Root, k, "A", st), k)]}
-      : s \in {x \in Sites(k) : x.site \in {"properties", "items", "allOf"}}}
+      : s \in {x \in Sites(k) : x.site \in {"properties", "items", "allOf", "anyOf", "oneOf", "not", "additionalProperties"}}}
+    ELSE {})
+   \cup
+   (IF k = "responses" THEN
+     \* a pointer to the response of an operation of a path ("#/paths/~1x/post/responses/200"), and near misses of its status key
+     {[shape |-> "pathfragment_resp", site |-> rs,
+       u |-> U(<<Slot(A1, "pathItems", "x", Conc("PX", <<>>) @@ [inl |-> <<[site |-> "post.responses", id |-> "PR"]>>])>>,
+               [path |-> Spell(Root, A1, st), frag |-> <<"#pathinl", "x", rs>>], k)] : rs \in {"post.responses", "post.responses~default", "post.responses~2XX"}}
     ELSE {})
 
 (* reference cycles closed through a callback: its own operation declares the callback again *)
@@ -246,6 +383,16 @@ PathItemShapes(st) ==
        u |-> U(<<Slot(A1, PI, "x", Conc("X", <<Ch(s.site, s.kind, R(A1, Root, s.kind, "Y", st))>>)), Slot(Root, s.kind, "Y", Conc("RootY", <<>>))>>,
                R(Root, A1, PI, "x", st), PI)]}
      : s \in Sites(PI)}
+   \cup {[shape |-> "pi_templated", u |-> U(<<Slot(A1, PI, "u/{id}", Conc("X", <<>>))>>, R(Root, A1, PI, "u/{id}", st), PI)],
+          [shape |-> "pi_templated_local", u |-> U(<<Slot(Root, PI, "u/{id}", Conc("X", <<>>))>>, R(Root, Root, PI, "u/{id}", st), PI)]}
+   \cup UNION {{[shape |-> "pi_nearmiss", site |-> nm, u |-> U(<<Slot(A1, PI, "u/{id}", Conc("X", <<>>))>>, R(Root, A1, PI, nm, st), PI)],
+                 [shape |-> "pi_nearmiss_local", site |-> nm, u |-> U(<<Slot(Root, PI, "u/{id}", Conc("X", <<>>))>>, R(Root, Root, PI, nm, st), PI)]}
+                : nm \in NearMisses}
+   \cup {[shape |-> "pi_childpair", site |-> First(p).site \o "+" \o Second(p).site,
+           u |-> U(<<Slot(A1, PI, "x", Conc("X", <<Ch(First(p).site, First(p).kind, R(A1, B1, First(p).kind, "Y", st)),
+                                                     Ch(Second(p).site, Second(p).kind, R(A1, B1, Second(p).kind, "Z", st))>>)),
+                     Slot(B1, First(p).kind, "Y", Conc("Y", <<>>)), Slot(B1, Second(p).kind, "Z", Conc("Z", <<>>))>>, R(Root, A1, PI, "x", st), PI)]
+          : p \in SitePairs(PI)}
 
 (* file_rel_default: relative LoadFromFile through the library's default (caching) reader; the   *)
 (* universes of a run are loaded one after the other in one process, each from its own directory  *)
@@ -257,10 +404,28 @@ PathItemShapes(st) ==
 (* relative references resolve against the working directory (the harness stands in the root's dir) *)
 (* file_abs_prior: the Loader has first loaded, as a root document of its own, every external file of the    *)
 (* universe (successfully or not); what a Loader has seen before gives the next load no licence to read it *)
-Entries == {"file_abs", "file_rel", "datapath", "file_rel_default", "uri_remote", "file_abs_reuse", "file_abs_prior", "data", "reader"}
+(* resolvein: the document is unmarshalled by the caller and handed to Loader.ResolveRefsIn with its location (the entry point for an  *)
+(* already parsed document) -- on a fresh Loader                                                                                      *)
+(* Histories of one Loader with the external-reference switch CHANGED between two uses (the second use is the one judged, with the     *)
+(* setting `allow` of the case; the first use ran with the opposite setting):                                                          *)
+(*   file_abs_toggled / resolvein_toggled: first a reference-free document at another location is loaded, then the switch is flipped,  *)
+(*     then LoadFromFile / ResolveRefsIn of the universe's root: the setting in force is the one at the time of the use                *)
+(*   file_abs_retry / resolvein_retry: first THE SAME root is loaded with external references disallowed (which fails wherever the     *)
+(*     universe needs another file), then they are allowed and the root is loaded again: a failed attempt leaves nothing behind.       *)
+(*     (Only this direction: whether a Loader that has resolved a document with the switch on may hand the same document out again     *)
+(*     after the switch is turned off -- reading nothing -- is left open by the statement of C11, so allow = FALSE is not generated.)   *)
+HistoryEntries == {"resolvein", "file_abs_toggled", "resolvein_toggled", "file_abs_retry", "resolvein_retry"}
+Entries == {"file_abs", "file_rel", "datapath", "file_rel_default", "uri_remote", "file_abs_reuse", "file_abs_prior", "data", "reader"} \cup HistoryEntries
 
+Heavy == {"deepback", "deepback_named", "wholedef", "wholedef_ref", "wholedef_reffrag", "wholedef_via"}      \* (shape families with many members: sliced by clauses of their own)
 QuickSlice(sh, st, e, pos) ==
-   \/ (st \in {"plain", "abspath", "http"} /\ e = "file_abs")
+   \/ (st \in {"plain", "abspath", "http"} /\ e = "file_abs" /\ sh.shape \notin Heavy)
+   \/ (sh.shape \in {"deepback", "deepback_named"} /\ sh.canon /\ st = "plain" /\ e = "file_abs" /\ pos = "op")
+   \/ (sh.shape \in {"wholedef", "wholedef_ref", "wholedef_reffrag", "wholedef_via"} /\ st = "plain" /\ e = "file_abs" /\ pos = "op")
+   \/ (sh.shape = "wholedef_ref" /\ st = "plain" /\ e \in {"file_rel", "uri_remote"} /\ pos = "op" /\ sh.site \in {"properties", "schema", "content.schema", "headers"})
+   \/ (sh.shape \in {"direct", "chain3", "child", "wholefile"} /\ st = "plain" /\ e \in {"resolvein", "file_abs_toggled", "resolvein_toggled"} /\ pos = "op")
+   \/ (sh.shape \in {"direct", "child", "sameroot"} /\ st = "plain" /\ e \in {"file_abs_retry", "resolvein_retry"} /\ pos = "op")
+   \/ (sh.shape \in {"deepcomp_local", "rootdef", "pi_nearmiss_local", "pathfragment_nearmiss_local"} /\ st = "plain" /\ e = "data")
    \/ (st \in AbsStyles /\ sh.shape \in {"direct", "child", "wholefile"} /\ e = "datapath" /\ pos = "op")
    \/ sh.shape = "otherhost_samepath"
    \/ (sh.shape \in {"collection", "collection_local"} /\ st = "plain" /\ e \in {"file_abs", "data"})
@@ -273,6 +438,7 @@ QuickSlice(sh, st, e, pos) ==
    \/ (sh.shape = "childdangling_whole" /\ st = "plain" /\ e \in {"file_abs", "file_rel"} /\ pos = "op")
    \/ (sh.shape = "samepath_twohosts" /\ st = "plain" /\ e \in {"file_abs", "uri_remote", "datapath"})
    \/ (sh.shape = "deepfragment" /\ e \in {"file_abs", "file_rel"})
+   \/ (sh.shape \in {"childpair", "childpair_root", "childpair_local", "pi_childpair"} /\ st = "plain" /\ e = "file_abs" /\ pos = "op")
    \/ (sh.shape \in {"child", "chain3", "diamond"} /\ e = "file_abs" /\ pos = "op")
    \/ (sh.shape \in {"direct", "child", "pi_direct", "pi_wholefile", "pi_child"} /\ st = "plain" /\ pos = "op")
    \/ (sh.shape \in {"direct", "chain3", "wholefile"} /\ e = "file_rel_default" /\ pos = "op")
@@ -280,6 +446,16 @@ QuickSlice(sh, st, e, pos) ==
    \/ (sh.shape \in {"direct", "chain2", "chain3", "child", "diamond", "backref"} /\ e = "file_abs_prior" /\ st \in {"plain", "abspath"})
    \/ (sh.shape \in {"direct", "chain3", "wholefile", "child", "childdeep", "selfcycle", "sameroot", "dangling"} /\ e \in {"data", "reader"} /\ st \in {"plain", "abspath"})
    \/ (sh.shape \in {"direct", "chain3", "wholefile", "child", "backref"} /\ e = "uri_remote" /\ st \in {"plain", "updown"} /\ pos = "op")
+
+(* thorough: the full product for the shapes of rounds 1-5; the large families added in round 6 and the Loader histories are    *)
+(* combined with the entry points that differ in how locations are formed, not with every one of the fourteen                    *)
+NewFamilies == Heavy \cup {"childpair", "childpair_root", "childpair_local", "pi_childpair", "deepback2"}
+ThoroughSlice(sh, st, e, pos) ==
+   /\ (sh.shape \in NewFamilies => e \in {"file_abs", "file_rel", "datapath", "data", "uri_remote"})
+   /\ (sh.shape \in NewFamilies /\ st \notin RelStyles => e = "file_abs")
+   /\ (sh.shape \in {"deepback", "deepback_named"} /\ ~sh.canon => st = "plain" /\ e \in {"file_abs", "data"})
+   /\ (e \in HistoryEntries => st = "plain" /\ sh.shape \notin NewFamilies
+                                /\ sh.shape \notin {"samename_otherkind", "collision", "childlocal_shadow", "childdangling_whole", "whole_localdangling", "childdeep_whole"})
 
 CONSTANT Allows      \* settings of IsExternalRefsAllowed to generate
 VARIABLE case
@@ -290,7 +466,10 @@ Init == \E k \in Kinds \cup {PI}, st \in Styles, e \in Entries, pos \in {"op", "
              /\ (k = PI => pos = "op")
              /\ (pos = "op2" => sh.shape \in {"direct", "chain3", "child", "childlocal", "wholefile", "selfcycle", "backref"} /\ e \in {"file_abs", "file_rel"})
              /\ (Tier = "quick" => QuickSlice(sh, st, e, pos))
+             /\ (Tier = "thorough" => ThoroughSlice(sh, st, e, pos))
              /\ (e = "uri_remote" => st \in RelStyles)
+             /\ (e \in {"file_abs_retry", "resolvein_retry"} => al)
+             /\ (e \in HistoryEntries => st \in RelStyles \cup {"abspath"} /\ pos # "op2")
              /\ (sh.shape = "samepath_twohosts" => e # "file_rel_default")      \* the library's default reader cannot be made to serve a second host
              /\ (k = "securitySchemes" => pos = "comp")        \* security schemes are referenced by name, not by $ref
              /\ case = [kind |-> k, style |-> st, entry |-> e, pos |-> pos, shape |-> sh.shape,
